@@ -85,4 +85,104 @@ theorem datParse_print (f : File) (hwf : f.wf) (hrows : f.rows ≠ []) : datPars
   unfold datParse
   rw [canParse_print f hwf hrows]
 
+
+/-! ### shape of a printed file -/
+
+theorem joinLines_mem (ls : List Str) (fin : Bool) : ∀ c ∈ joinLines ls fin, c = 10 ∨ ∃ l ∈ ls, c ∈ l := by
+  induction ls with
+  | nil => simp [joinLines]
+  | cons l r ih =>
+    intro c hc
+    cases r with
+    | nil =>
+      simp only [joinLines] at hc
+      split at hc
+      · rcases List.mem_append.mp hc with h | h
+        · exact Or.inr ⟨l, by simp, h⟩
+        · left; simpa using h
+      · exact Or.inr ⟨l, by simp, hc⟩
+    | cons l2 r2 =>
+      simp only [joinLines] at hc
+      rcases List.mem_append.mp hc with h | h
+      · exact Or.inr ⟨l, by simp, h⟩
+      · rcases List.mem_cons.mp h with h | h
+        · exact Or.inl h
+        · rcases ih c h with h' | ⟨l', hl', hc'⟩
+          · exact Or.inl h'
+          · exact Or.inr ⟨l', by simp [hl'], hc'⟩
+
+theorem printLine_chars (toks : List Str) (lay : LineLay) (ht : ∀ t ∈ toks, isTok t) (hl : lay.wf) :
+    ∀ c ∈ printLine toks lay, (9 ≤ c ∧ c ≤ 13) ∨ (32 ≤ c ∧ c ≤ 126) := by
+  obtain ⟨hlead, htrail, hseps⟩ := hl
+  intro c hc
+  simp only [printLine, List.mem_append] at hc
+  rcases hc with (hc | hc) | hc
+  · rcases hlead c hc with h | h | h | h | h <;> omega
+  · rcases interleave_chars toks lay.seps ht hseps c hc with h | h
+    · omega
+    · rcases h with h | h | h | h | h <;> omega
+  · rcases htrail c hc with h | h | h | h | h <;> omega
+
+theorem print_printable (f : File) (hwf : f.wf) : Printable (print f) := by
+  have hst := sel_tok f hwf
+  obtain ⟨hd, _, _, _, _, hne, _, _, hhl, hrows⟩ := hwf
+  intro c hc
+  rcases joinLines_mem _ _ c hc with h | ⟨l, hl, hcl⟩
+  · omega
+  · simp only [File.lines, List.mem_append, List.mem_cons, List.mem_map] at hl
+    rcases hl with ⟨d, hdm, rfl⟩ | rfl | ⟨r, hrm, rfl⟩
+    · exact printLine_chars _ _ (declTokens_tok d.1 (hd d hdm).1) (hd d hdm).2 c hcl
+    · exact printLine_chars _ _ (headerTokens_tok f.sel hst) hhl c hcl
+    · exact printLine_chars _ _ (rowTokens_tok _ r.1 r.2.2 (hrows r hrm).1) (hrows r hrm).2 c hcl
+
+theorem joinLines_cons_prefix (l : Str) (r : List Str) (fin : Bool) : ∃ Z, joinLines (l :: r) fin = l ++ Z := by
+  cases r with
+  | nil =>
+    simp only [joinLines]
+    split
+    · exact ⟨[10], rfl⟩
+    · exact ⟨[], by simp⟩
+  | cons l2 r2 => exact ⟨10 :: joinLines (l2 :: r2) fin, rfl⟩
+
+theorem interleave_cons_prefix (t : Str) (ts seps : List Str) : ∃ Y, interleave (t :: ts) seps = t ++ Y := by
+  cases ts with
+  | nil => exact ⟨[], by simp [interleave]⟩
+  | cons u us =>
+    cases seps with
+    | nil => exact ⟨32 :: interleave (u :: us) [], rfl⟩
+    | cons s ss => exact ⟨s ++ interleave (u :: us) ss, by simp [interleave]⟩
+
+theorem dropWhile_blank_prefix (lead : Str) (a : Nat) (W : Str) (hl : isBlank lead) (ha : isWs a = false) :
+    (lead ++ a :: W).dropWhile isWs = a :: W := by
+  induction lead with
+  | nil => simp [List.dropWhile, ha]
+  | cons x xs ih =>
+    have hx : isWs x = true := by
+      rcases hl x (by simp) with h | h | h | h | h <;> simp [h, isWs]
+    rw [List.cons_append, List.dropWhile_cons_of_pos hx]
+    exact ih (fun c hc => hl c (by simp [hc]))
+
+/-- a printed file is: blanks, then a channel mnemonic character -/
+theorem print_head (f : File) (hwf : f.wf) :
+    ∃ lead a W, print f = lead ++ a :: W ∧ isBlank lead ∧ isUpperDigit a = true := by
+  obtain ⟨hd, _, ⟨dU, hdU, _, _⟩, _⟩ := hwf
+  cases hds : f.decls with
+  | nil => rw [hds] at hdU; simp at hdU
+  | cons d ds =>
+    obtain ⟨⟨hname, _⟩, hlay⟩ := hd d (by rw [hds]; simp)
+    obtain ⟨hne, hchars⟩ := hname
+    cases hn : d.1.name with
+    | nil => exact absurd hn hne
+    | cons a n' =>
+      obtain ⟨Y, hY⟩ := interleave_cons_prefix d.1.name (d.1.words ++ [d.1.units]) d.2.seps
+      obtain ⟨Z, hZ⟩ := joinLines_cons_prefix (printLine (declTokens d.1) d.2)
+        (ds.map (fun d => printLine (declTokens d.1) d.2) ++ printLine (headerTokens f.sel) f.hdrLay ::
+          f.rows.map (fun r => printLine (rowTokens r.1 r.2.2) r.2.1)) f.finalNewline
+      refine ⟨d.2.lead, a, n' ++ Y ++ d.2.trail ++ Z, ?_, hlay.1, hchars a (by rw [hn]; simp)⟩
+      unfold print File.lines
+      rw [hds, List.map_cons, List.cons_append, hZ]
+      simp only [printLine, declTokens]
+      rw [hY, hn]
+      simp only [List.cons_append, List.append_assoc]
+
 end TD.C20
